@@ -10,19 +10,31 @@ import (
 
 func TestMain(m *testing.M) {
 	stats.Describe("exploration",
-		"Server side: per case two real ServerPeerIDAuth instances (different private keys of any of the four key types, different HMAC secrets, "+
+		"Server side: per case 2-3 (TestServerInstances: 2-4) real ServerPeerIDAuth instances (private keys of any of the four key types, 1/5 of the "+
+			"further instances with the SAME private key as instance 0; per instance the secret is an application-provided HmacKey of its own, an "+
+			"HmacKey the application gave to several instances alike (replicas: one secret), or HmacKey left UNSET so that the instance has to draw "+
+			"its own secret - the default configuration; "+
 			"TokenTTL below / above the challenge lifetime, NoTLS or TLS mode) are driven through ServeHTTP inside a virtual-time bubble. An honest "+
 			"client written from the spec runs 1-3 complete handshakes (client- and server-initiated, all four client key types, two hostnames); "+
 			"every request and response is captured. Then 1-5 attack requests are built from a captured step (or from any challenge seen so far, "+
 			"answered by any identity) with 0-3 operators: bit flips / truncation inside decoded opaque, bearer, sig, public-key, challenge values; "+
 			"drop, duplicate, reorder, re-case parameters; equivalent and non-equivalent base64 re-encodings; swap with the same parameter of another "+
 			"session / client / server / hostname; challenge opaque as bearer and token as opaque; fresh signatures by any identity over any "+
-			"(challenge, server key, hostname) incl. empty / omitted parts; state forged under a foreign secret, zero MAC, spliced MAC, rewritten "+
-			"peer ID; header formatting noise; other instance, other / invalid / re-cased Host, SNI mismatch; virtual sleeps to just before, at and "+
-			"just after the challenge and token lifetimes. ORACLE (provenance, applied to every request that reaches Next, honest ones included): "+
-			"some value of the header decodes to exactly a token this instance issued to the reported peer and not older than TokenTTL, or to "+
-			"exactly a challenge opaque this instance minted not more than 5 min ago together with a signature that verifies under the reported "+
-			"peer's key over (that challenge, this instance's public key, the request's Host). Client side: the real ClientPeerIDAuth talks to a "+
+			"(challenge, server key, hostname) incl. empty / omitted parts; state nobody minted - tokens and challenge states (server- and "+
+			"client-initiated shape, properly signed for the target) made offline under a secret anybody can try: no key, 32 / 64 zero bytes, the "+
+			"hostname, the target's public key, its peer ID, the secret of an unrelated deployment, the provided secret of another instance outside "+
+			"the target's secret domain - naming a client of the case, a peer no server has ever seen, or the server itself; zero MAC, spliced MAC, rewritten "+
+			"peer ID; header formatting noise; any other instance as target, other / invalid / re-cased Host, SNI mismatch; virtual sleeps to just before, at and "+
+			"just after the challenge and token lifetimes. TestServerInstances walks the instance dimension directly: 1-2 honest sessions, then 2-6 "+
+			"presentations of a token as issued / the challenge answered by its owner with a fresh signature for the TARGET's key and Host / the "+
+			"original answer verbatim / a forged token / a forged challenge, to the minting instance (control, must be accepted while fresh), a replica or "+
+			"a foreign instance, under the hostname it was minted for or the other one. "+
+			"ORACLE (provenance, applied to every request that reaches Next, honest ones included): "+
+			"some value of the header decodes to exactly a token this server issued to the reported peer and not older than TokenTTL, or to "+
+			"exactly a challenge opaque this server minted not more than 5 min ago together with a signature that verifies under the reported "+
+			"peer's key over (that challenge, this instance's public key, the request's Host); 'this server' = the instance itself or an instance "+
+			"the application gave the very same HmacKey; state of any other instance (in particular of another instance with an unset HmacKey) and "+
+			"state no instance minted justify nothing. Client side: the real ClientPeerIDAuth talks to a "+
 			"harness server (RoundTripper) that answers each request honestly or with a generated deviation (wrong signer, wrong / stale / foreign "+
 			"challenge, wrong client key, wrong / omitted hostname, mutated or replayed signature, dropped / duplicated / swapped public-key, "+
 			"refused client-initiated flow, rejected token, swapped header names, status codes), over 1-4 calls (sessions of the same client key, two "+
@@ -35,11 +47,14 @@ func TestMain(m *testing.M) {
 			"values the signature was really made for. The oracle's tables are filled from the final header on the wire. A "+
 			"returned server ID must own a signature sent in that call over (a challenge the client sent in that call, the client's key, the "+
 			"hostname), or be the ID proven when the cached token was obtained. "+
-			"NON-TRIVIAL = at least one operator / deviation / cross-target / expiry shift applied; DISTINCT = distinct (base step, operator+parameter "+
-			"list, target, host class, sleep class) resp. distinct response-plan list.",
+			"NON-TRIVIAL = at least one operator / deviation / cross-target / expiry shift applied (TestServerInstances: at least one presentation to a "+
+			"foreign instance or of forged state); DISTINCT = distinct (base step, operator+parameter "+
+			"list, target relation, host class, sleep class) resp. distinct response-plan list resp. distinct (kind, relation, flow, minter secret mode -> "+
+			"target secret mode / guessed secret, host class) list.",
 		"challenge lifetime is the implementation constant 5 min (handshake/server.go challengeTTL); acceptance exactly at the TTL instant is allowed either way",
 		"core/crypto Sign/Verify are trusted (property C08); a signature counts as proof when Verify accepts it under the reported peer's key over the exact expected bytes (ECDSA trailing-bytes malleability therefore never raises an alarm)",
 		"not asserted: a token minted under hostname A being refused under hostname B of the same instance; an opaque minted under hostname A being refused under B when the signature covers B; completeness (honest material being accepted) is only a harness precondition",
+		"instances that the application gives the same HmacKey count as one server (one secret): a token or challenge of one is allowed, not required, to be honoured by the other; every instance with an unset HmacKey is a server of its own",
 		"a panic of the handler reports no identity and is counted (label server-panic), not judged by this property",
 	)
 	hx.Main(m)
